@@ -67,6 +67,7 @@ func runHistmon(cfg *RunCfg, rep *Reporter, cov *Cov) {
 	}
 	if prop == "C16" {
 		runCompactAges(cfg, rep, cov)
+		runCompactManyKeys(cfg, rep, cov)
 	}
 }
 
@@ -80,6 +81,9 @@ func runOneHistory(cfg *RunCfg, rep *Reporter, cov *Cov, idx, steps int) {
 	h.gen = newGenState(r, prof, id)
 	h.cfg = pick(r, prof.Cfgs)
 	h.model = &ref.Model{Cfg: h.cfg}
+	if prop == "C01" && idx%8 == 5 {
+		h.gen.epochZero = true
+	}
 	if prop == "C20" && idx%5 == 3 {
 		h.spell = []string{"//", "/./", "/.//"}[idx/5%3]
 		cov.Add("histories_with_unclean_directory_spelling", 1)
@@ -116,7 +120,7 @@ func runOneHistory(cfg *RunCfg, rep *Reporter, cov *Cov, idx, steps int) {
 		h.step(&op)
 	}
 	if !h.failed && h.aborted == "" && h.prop == "C20" {
-		h.recheckBackup(filepath.Join(h.scratch, h.id+"-bk"))
+		h.recheckBackup(h.bkDir())
 	}
 	if !h.failed && h.aborted == "" {
 		// final close with the closed-directory checks
@@ -210,6 +214,16 @@ func (h *Hist) callErr(kind, stage string, err error, fatal bool) bool {
 		return true
 	}
 	return false
+}
+
+// bkDir is the backup target of the history; a quarter of them carry characters that mean something
+// to pattern matchers ("[", "]", "*", "?") in their name - plain characters in a directory name.
+func (h *Hist) bkDir() string {
+	name := h.id + "-bk"
+	if h.idx%4 == 1 {
+		name += []string{"[1]", "[full]*", "?[a-z]"}[h.idx/4%3]
+	}
+	return filepath.Join(h.scratch, name)
 }
 
 // path is the directory as it is spelled for klevdb: a fifth of the C20 histories name their log
@@ -1822,7 +1836,7 @@ func (h *Hist) closedC17() {
 
 func (h *Hist) doBackup(op *Op) {
 	// state for repeated backups lives in the directory <scratch>/<id>-backup
-	dst := filepath.Join(h.scratch, h.id+"-bk")
+	dst := h.bkDir()
 	fresh := false
 	if _, err := os.Stat(dst); err != nil {
 		fresh = true
@@ -1892,6 +1906,11 @@ func (h *Hist) doBackup(op *Op) {
 	// source unchanged by the backup itself (compare before the observation, which may lazily rebuild indexes)
 	if err := guard(func() error { return klevdb.Check(dst, h.opts.K()) }); err != nil && (!h.cfg.Times || h.everNonDec) {
 		h.fail(failf("backup:check-fails:"+errClass(err), "Check of the backup failed: %s", errText(err)))
+		return
+	}
+	// the target under its own name (the reopen below works on a copy with a plain name)
+	if st, err := klevdb.Stat(dst, h.opts.K()); err != nil || st.Messages != len(h.model.Live) {
+		h.fail(failf("backup:stat-of-target", "Stat of the backup directory %q reports %d messages (err=%s), the source has %d live messages", filepath.Base(dst), st.Messages, errText(err), len(h.model.Live)))
 		return
 	}
 	o := OpenOpts{KeyIndex: h.cfg.Keys, TimeIdx: h.cfg.Times, Rollover: h.opts.Rollover, NewVer: h.opts.NewVer}
